@@ -707,6 +707,17 @@ def drive(obs, src, items, snap):
     return snap
 
 
+def _into(snap, result):
+    """copy `result` into the caller's Snap object, if one was given"""
+    if snap is None or snap is result:
+        return result
+    for a in ('out', 'err', 'done', 'pos', 'after_end'):
+        setattr(snap, a, getattr(result, a))
+    if hasattr(result, 'raised'):
+        snap.raised = result.raised
+    return snap
+
+
 def clear_logs(taps):
     for v in (taps or {}).values():
         for log in v:
@@ -729,10 +740,21 @@ def run_mux(prog, items, env=None, taps=None, store_factory=None, snap=None, aga
         obs = src.observable.pipe(w)
         play_prelude(obs, src, items, prelude)
         clear_logs(taps)
-        first = drive(obs, src, items, snap or Snap())
+        first = drive(obs, src, items, Snap())
+        if first.err is not None:
+            # Is the error a consequence of the history?  The same program on the same input WITHOUT history decides:
+            # if it errors as well (a program outside the domain, e.g. mean(reduce) of an empty key - which may have
+            # killed the aborted run too, leaving a tee_map's publish subject in its terminal state) that run is the
+            # one handed to the oracle.
+            clear_logs(taps)
+            fresh = run_mux(prog, items, env, taps, store_factory, None, again, None)
+            if fresh.err is not None:
+                return _into(snap, fresh)
+            clear_logs(taps)
+            return _into(snap, first)
         if again is not None:
             drive(obs, src, items, again)
-        return first
+        return _into(snap, first)
     obs = rx.from_(items).pipe(w)
     first = subscribe(obs, snap or Snap())
     if again is not None:
@@ -760,7 +782,17 @@ def run_obs(make, items, prelude=None, logs=(), snap=None):
     play_prelude(obs, src, items, prelude)
     for log in logs:
         del log[:]
-    return drive(obs, src, items, snap or Snap())
+    first = drive(obs, src, items, Snap())
+    if first.err is not None:
+        # (see run_mux: an error that the same observable also produces without any history is not the history's)
+        for log in logs:
+            del log[:]
+        fresh = subscribe(make(rx.from_(items)), Snap())
+        if fresh.err is not None:
+            return _into(snap, fresh)
+        for log in logs:
+            del log[:]
+    return _into(snap, first)
 
 
 def run_driven(prog, items, mode='mux', env=None, prelude=None):
@@ -790,6 +822,10 @@ def run_driven(prog, items, mode='mux', env=None, prelude=None):
         except Exception as e:          # noqa: BLE001
             if snap.err is None:
                 snap.err = e
+        if snap.err is not None:
+            fresh = run_driven(prog, items, mode, env, None)       # (see run_mux)
+            if fresh.err is not None:
+                return fresh
         return snap
     subj = Subject()
     if mode == 'mux':
